@@ -276,7 +276,9 @@ func (e editor) node(from *Selection, to *Selection, m meta.HasDataDefinitions, 
 			undo := toRequest
 			undo.New = false
 			undo.Delete = true
-			to.Node.Child(undo)
+			if _, undoErr := to.Node.Child(undo); undoErr != nil {
+				return fmt.Errorf("'%s' could not create '%s' container node, nor remove what was made of it: %w", toRequest.Path, m.Ident(), undoErr)
+			}
 		}
 		return fmt.Errorf("'%s' could not create '%s' container node ", toRequest.Path, m.Ident())
 	}
